@@ -364,6 +364,39 @@ def check_lspawn_process(ck, rb, drv):
         elif reps[0][1] != v.encode() + cut: mism.append(obj)
     return fails, mism
 
+# ------------------------------------------------------------------------------------------ qmail-lspawn report() as a function
+def check_lspawn_report_fn(ck, rb, drv):
+    """report() of qmail-lspawn.c (function harness, memory substdio) = Local/LspawnReport.v lspawn_report = the Gallina generated from
+    today's report(); and directly: whatever the delivery program wrote, the report has no NUL, starts with K, Z or D, K only after exit 0."""
+    objs, libs = rb.link_deps("qmail-lspawn")
+    fails, mism = [], []
+    try:
+        h = rb.compile_harness(os.path.join(vlib.VERIF, "harness", "h_lsreport.c"), os.path.join(vlib.scratch(), "h_lsreport"),
+                               objs=[o for o in objs if o != "spawn.o"], libs=libs)
+        gen = vlib.build_driver("GEN")
+    except (vlib.HarnessBuildError, RuntimeError) as e:
+        return [], [dict(kind="translator", what="h_lsreport.c or the generated report() does not build", log=str(e)[-600:])]
+    rng = ck.rng
+    outs = [b"", b"delivered\n", b"\0", b"a\0b", b"did 1+0+0\n\0\2Kforged success\0", b"\0\3Dforged failure\0\4Zx\0", b"K\0Z\0D\0", b"\xff\x80\0x", b"y" * 300 + b"\0\7K"]
+    for _ in range(200 if ck.thorough else 40):
+        outs.append(bytes(rng.choice(b"ab\0\0\1\2KZD\n\xff") for _ in range(rng.randint(0, 30))))
+    reps = [(0, e, outs[(e * 7) % len(outs)]) for e in range(256)] + [(1, e, o) for e in (0, 100) for o in outs[:9]] + [(0, e, o) for e in (0, 100, 111, 99) for o in outs]
+    lines = ["lrep %d %d %s" % (c, e, vlib.hx(o)) for c, e, o in reps]
+    a, _, _ = vlib.run_lines(h, ["rep" + l[4:] for l in lines])
+    b, _, _ = vlib.run_lines(drv, lines)
+    g, _, _ = vlib.run_lines(gen, lines)
+    for (c, e, o), x, y, z in zip(reps, a, b, g):
+        ck.evaluated(); ck.count("lspawn_report_fn"); ck.nontrivial(("lsr", c, e, o))
+        r = vlib.unhx(x)
+        obj = dict(kind="input", component="qmail-lspawn report()", crashed=c, exitcode=e, output_hex=vlib.hx(o), observed=r.decode("latin1")[:160], model=vlib.unhx(y).decode("latin1")[:160], generated=z[:200])
+        if b"\0" in r or not r: fails.append(("spawn:report-count", obj, len(o)))
+        elif r[:1] not in (b"K", b"Z", b"D"): fails.append(("spawn:no-verdict", obj, len(o)))
+        elif r[:1] == b"K" and (c or e != 0): fails.append(("spawn:failure-reported-as-success", obj, len(o)))
+        elif c and r[:1] != b"Z": fails.append(("spawn:crash-not-temporary", obj, len(o)))
+        elif x != y: mism.append(obj)
+        elif x != z: mism.append(dict(obj, kind="translator", what="generated report() and C report() disagree"))
+    return fails, mism
+
 # ------------------------------------------------------------------------------------------ del_dochan
 def gen_del(ck):
     rng = ck.rng
@@ -480,6 +513,7 @@ def main():
     for prog in ("qmail-rspawn",):
         f, m = check_spawn(ck, rb, home, drv, prog); fails += f; mism += m
     f, m = check_lspawn_process(ck, rb, drv); fails += f; mism += m
+    f, m = check_lspawn_report_fn(ck, rb, drv); fails += f; mism += m
     vlib.log("spawn part %.1fs" % (time.time() - t0)); t0 = time.time()
     f, m = check_del(ck, rb, home, drv); fails += f; mism += m
     vlib.log("del part %.1fs" % (time.time() - t0))
